@@ -28,15 +28,6 @@ package dhcpd
 //@ guarded v4Server.leasedOffsets by leasesLock
 
 // Helpers that work on the lease table and expect the table lock to be held by the caller.
-//@ func (s *v4Server) rmLeaseByIndex(i int)
-//@   requires held(s.leasesLock)
-//@   modifies *
-//@ func (s *v4Server) rmLease(lease *dhcpsvc.Lease) (err error)
-//@   requires held(s.leasesLock)
-//@   modifies *
-//@ func (s *v4Server) rmDynamicLease(lease *dhcpsvc.Lease) (err error)
-//@   requires held(s.leasesLock)
-//@   modifies *
 //@ func (s *v4Server) reserveLease(mac net.HardwareAddr) (l *dhcpsvc.Lease, err error)
 //@   requires held(s.leasesLock)
 //@   modifies *
@@ -47,9 +38,6 @@ package dhcpd
 //@   requires held(s.leasesLock)
 //@   modifies *
 //@ func (s *v4Server) nextIP() (r0 net.IP)
-//@   requires held(s.leasesLock)
-//@   modifies *
-//@ func (s *v4Server) addLease(l *dhcpsvc.Lease) (err error)
 //@   requires held(s.leasesLock)
 //@   modifies *
 //@ func (s *v4Server) validateStaticLease(l *dhcpsvc.Lease) (err error)
@@ -72,3 +60,112 @@ package dhcpd
 // (home.onConfigModified -> config.write -> WriteDiskConfig): it must be invoked with no lock held.
 //@ package-callsite fieldcall:github.com/AdguardTeam/AdGuardHome/internal/dhcpd.ServerConfig.ConfigModified() requires nolocks()
 //@ sweep C05 fieldcall:github.com/AdguardTeam/AdGuardHome/internal/dhcpd.ServerConfig.ConfigModified
+
+
+// ---- C10: the DHCPv4 lease table: one lease per address, indexes and bit set in step ----
+// bits[bkey(b, n)] is bit n of bit set b (the bit-twiddling bodies of set/isSet are trusted against this view).
+//@ ghost var bits map[int]bool
+//@ declare bkey(b *bitSet, n int) int
+//@ axiom bkey_inj: forall a *bitSet, b *bitSet, n int, m int :: {bkey(a, n), bkey(b, m)} bkey(a, n) == bkey(b, m) ==> a == b && n == m
+//@ func (s *bitSet) set(n uint64, ok bool)
+//@   trusted
+//@   nullable s
+//@   ghost at return: bits[bkey(s, n)] = ok
+//@   modifies bits
+//@ func (s *bitSet) isSet(n uint64) (ok bool)
+//@   trusted
+//@   nullable s
+//@   ensures s != nil ==> ok == bits[bkey(s, n)]
+//@   ensures s == nil ==> !ok
+//@   modifies nothing
+// lastOff / lastOffOK: result of the most recent ipRange.offset call (lets call-site clauses speak about 'the offset just
+// computed' without naming local variables).
+//@ ghost var lastOff int
+//@ ghost var lastOffOK bool
+//@ func (r *ipRange) offset(ip net.IP) (offset uint64, ok bool)
+//@   trusted
+//@   ghost at return: lastOff = offset
+//@   ghost at return: lastOffOK = ok
+//@   modifies lastOff, lastOffOK
+
+// Table invariant (the part of the property that is per state): every lease is indexed by its address, no lease object
+// occurs twice - hence no two leases share an address - and every indexed address belongs to a lease of the table.
+//@ define tableMaps(s *v4Server) bool = s.conf != nil && s.conf.ipRange != nil && s.hostsIndex != nil && s.ipIndex != nil
+//@ define indexed(s *v4Server) bool = forall k int :: {mark(k)} 0 <= k && k < len(s.leases) ==> s.leases[k] != nil && (s.leases[k].IP in s.ipIndex) && s.ipIndex[s.leases[k].IP] == s.leases[k]
+//@ define noDup(s *v4Server) bool = forall j int, k int :: 0 <= j && j < k && k < len(s.leases) ==> s.leases[j] != s.leases[k]
+//@ define backed(s *v4Server) bool = forall a netip.Addr :: (a in s.ipIndex) ==> (exists k int :: 0 <= k && k < len(s.leases) && s.leases[k].IP == a)
+//@ define wfTable(s *v4Server) bool = tableMaps(s) && indexed(s) && noDup(s) && backed(s)
+
+// addLease appends l and indexes it; bits are touched only for pool addresses; a failed add changes nothing.
+//@ func (s *v4Server) addLease(l *dhcpsvc.Lease) (err error)
+//@   property C10
+//@   requires held(s.leasesLock)
+//@   requires wfTable(s)
+//@   requires new-address: !(l.IP in s.ipIndex)
+//@   requires new-object: forall k int :: {mark(k)} 0 <= k && k < len(s.leases) ==> s.leases[k] != l
+//@   callsite (*github.com/AdguardTeam/AdGuardHome/internal/dhcpd.bitSet).set(b, n, v) requires pool-addresses-only: lastOffOK && n == lastOff
+//@   ensures added: err == nil ==> wfTable(s) && len(s.leases) == old(len(s.leases)) + 1 && s.leases[len(s.leases) - 1] == l && (l.IP in s.ipIndex) && s.ipIndex[l.IP] == l
+//@   ensures others-kept: err == nil ==> (forall k int :: {mark(k)} 0 <= k && k < old(len(s.leases)) ==> s.leases[k] == old(s.leases[k]))
+//@   ensures failed-unchanged: err != nil ==> s.leases == old(s.leases) && wfTable(s) && !(l.IP in s.ipIndex)
+//@   modifies *
+
+// rmLeaseByIndex removes exactly the lease at i (later ones move down by one), its index entries and - for a pool address
+// only - its bit.
+//@ func (s *v4Server) rmLeaseByIndex(i int)
+//@   property C10
+//@   requires held(s.leasesLock)
+//@   requires wfTable(s) && 0 <= i
+//@   callsite (*github.com/AdguardTeam/AdGuardHome/internal/dhcpd.bitSet).set(b, n, v) requires pool-addresses-only: lastOffOK && n == lastOff && !v
+//@   ensures distinct-addresses: forall k int :: {mark(k)} 0 <= k && k < old(len(s.leases)) && k != i && i < old(len(s.leases)) ==> old(s.leases[k].IP) != old(s.leases[i].IP) && old(s.leases[k]) != old(s.leases[i])
+//@   ensures out-of-range-noop: i >= old(len(s.leases)) ==> s.leases == old(s.leases) && wfTable(s)
+//@   ensures before-kept: i < old(len(s.leases)) ==> (forall k int :: {mark(k)} 0 <= k && k < i ==> s.leases[k] == old(s.leases[k]))
+//@   ensures after-shifted: i < old(len(s.leases)) ==> (forall k int :: {mark(k)} i <= k && k < len(s.leases) ==> s.leases[k] == old(s.leases[k + 1]))
+//@   ensures index-entry-gone: i < old(len(s.leases)) ==> !(old(s.leases[i].IP) in s.ipIndex) && (forall a netip.Addr :: a != old(s.leases[i].IP) ==> (a in s.ipIndex) == old(a in s.ipIndex) && s.ipIndex[a] == old(s.ipIndex[a]))
+//@   ensures r-len: i < old(len(s.leases)) ==> len(s.leases) == old(len(s.leases)) - 1 && tableMaps(s)
+//@   ensures r-nodup: i < old(len(s.leases)) ==> noDup(s)
+//@   ensures r-indexed: i < old(len(s.leases)) ==> indexed(s)
+//@   ensures r-backed: i < old(len(s.leases)) ==> backed(s)
+//@   ensures removed: i < old(len(s.leases)) ==> wfTable(s) && len(s.leases) == old(len(s.leases)) - 1 && !(old(s.leases[i].IP) in s.ipIndex)
+//@   ensures index-only-shrinks: forall a netip.Addr :: (a in s.ipIndex) ==> old(a in s.ipIndex) && s.ipIndex[a] == old(s.ipIndex[a])
+//@   modifies s.leases, elems(s.leases), entries(s.hostsIndex), entries(s.ipIndex), bits, lastOff, lastOffOK
+
+//@ define macEq(a *dhcpsvc.Lease, b *dhcpsvc.Lease) bool = bytes.Equal(a.HWAddr, b.HWAddr)
+// rmDynamicLease evicts every dynamic lease that holds the address or belongs to the client of the new lease; it fails
+// (changing at most host names) if a static lease does.
+//@ func (s *v4Server) rmDynamicLease(lease *dhcpsvc.Lease) (err error)
+//@   property C10
+//@   requires held(s.leasesLock)
+//@   requires wfTable(s)
+//@   ensures table-ok: wfTable(s)
+//@   ensures evicted: err == nil ==> (forall k int :: {mark(k)} 0 <= k && k < len(s.leases) ==> !macEq(s.leases[k], lease) && s.leases[k].IP != lease.IP)
+//@   modifies *
+//@   loop 1 invariant 0 <= i && i <= len(s.leases) && held(s.leasesLock) && lease.IP == old(lease.IP) && lease.HWAddr == old(lease.HWAddr)
+//@   loop 1 invariant tableMaps(s)
+//@   loop 1 invariant noDup(s)
+//@   loop 1 invariant indexed(s)
+//@   loop 1 invariant backed(s)
+//@   loop 1 invariant forall k int :: {mark(k)} 0 <= k && k < i ==> !macEq(s.leases[k], lease) && s.leases[k].IP != lease.IP
+
+//@ func (s *v4Server) rmLease(lease *dhcpsvc.Lease) (err error)
+//@   property C10
+//@   requires held(s.leasesLock)
+//@   requires wfTable(s)
+//@   ensures table-ok: wfTable(s)
+//@   ensures removed: err == nil && old(len(s.leases)) > 0 ==> !(lease.IP in s.ipIndex) && len(s.leases) == old(len(s.leases)) - 1
+//@   ensures failed-unchanged: err != nil ==> s.leases == old(s.leases) && len(s.leases) == old(len(s.leases))
+//@   modifies s.leases, elems(s.leases), entries(s.hostsIndex), entries(s.ipIndex), bits, lastOff, lastOffOK
+//@   loop 1 invariant wfTable(s) && s.leases == old(s.leases) && held(s.leasesLock)
+
+// A reservation is added only after every conflicting dynamic lease is gone, so it never shares its address.
+//@ func (s *v4Server) updateStaticLease(l *dhcpsvc.Lease) (err error)
+//@   property C10
+//@   requires !held(s.leasesLock)
+//@   requires wfTable(s)
+//@   ensures t1: tableMaps(s)
+//@   ensures t2: indexed(s)
+//@   ensures t3: noDup(s)
+//@   ensures t4: backed(s)
+//@   ensures table-ok: wfTable(s)
+//@   ensures added: err == nil ==> (l.IP in s.ipIndex) && s.ipIndex[l.IP] == l
+//@   modifies *
+
